@@ -69,6 +69,42 @@ fn collect(b: &mut Bitboard, d: u64, sm: &[String], root: bool, tbl: &mut HashMa
     true
 }
 
+/// Candidate search for forced mates (NOT an oracle: its output is a certificate that TLC verifies move by move).
+/// Attacker to move: a move after which `mate_def` succeeds.  {"m": move, "r": [replies]}
+fn mate_att(b: &mut Bitboard, n: u32) -> Option<Value> {
+    for mv in b.generate_legal_moves() {
+        b.make(mv);
+        let r = mate_def(b, n);
+        b.unmake(mv);
+        if let Some(replies) = r {
+            return Some(json!({"m": mv.to_uci_string(), "r": replies}));
+        }
+    }
+    None
+}
+
+/// Defender to move, the attacker has `n - 1` moves left: every reply answered by a mating continuation.  [{"u": reply, "c": cert}]
+fn mate_def(b: &mut Bitboard, n: u32) -> Option<Vec<Value>> {
+    let legal = b.generate_legal_moves();
+    if legal.is_empty() {
+        return if b.is_current_in_check() { Some(vec![]) } else { None };
+    }
+    if n <= 1 {
+        return None;
+    }
+    let mut out = Vec::new();
+    for mv in legal {
+        b.make(mv);
+        let c = mate_att(b, n - 1);
+        b.unmake(mv);
+        match c {
+            Some(c) => out.push(json!({"u": mv.to_uci_string(), "c": c})),
+            None => return None,
+        }
+    }
+    Some(out)
+}
+
 fn strs(v: &Value, k: &str) -> Vec<String> {
     v.get(k).and_then(|x| x.as_array()).map(|a| a.iter().map(|m| m.as_str().unwrap_or("").to_string()).collect()).unwrap_or_default()
 }
@@ -156,7 +192,18 @@ fn godepth(out: &mut Out, id: u64, case: &Value) {
     for (k, v) in &tbl {
         evals.insert(k.clone(), json!(v));
     }
-    out.emit(&json!({"c": id, "ev": "godepth", "fen": fen, "moves": moves, "d": d, "searchmoves": sm, "st": st, "score": score_json(score), "depth_seen": depth_seen,
+    // forced-mate cases: a second certificate, for the position after the move the engine chose
+    let mate_n = u64_of(case, "n", 0) as u32;
+    let cert2 = if mate_n > 0 && best != "none" {
+        guarded(|| {
+            let mut b = Bitboard::from_fen_string(&fen).expect("case FEN");
+            if b.make_uci(&best).is_err() { return Value::Null; }
+            mate_def(&mut b, mate_n).map_or(Value::Null, |r| json!(r))
+        }).unwrap_or(Value::Null)
+    } else { Value::Null };
+    let has2 = !cert2.is_null();
+    out.emit(&json!({"c": id, "ev": "godepth", "cert": case.get("cert").cloned().unwrap_or(json!({"m": "", "r": []})), "n": mate_n,
+                     "cert2": if has2 { cert2 } else { json!([]) }, "has2": has2, "fen": fen, "moves": moves, "d": d, "searchmoves": sm, "st": st, "score": score_json(score), "depth_seen": depth_seen,
                      "pv": pv, "best": best, "ponder": ponder, "evals": evals, "tree": tbl.len(), "warm": warmed, "ref": str_of(case, "ref"),
                      "contempt": verif::contempt(), "mode": str_of(case, "mode"), "flipof": u64_of(case, "flipof", 0), "cycle": strs(case, "cycle"), "pre": pre_n}));
     // the search's transposition-table decisions in order (hook H6), as logged: nothing is judged here
@@ -176,6 +223,31 @@ pub fn run(args: &[String]) -> i32 {
         let id = u64_of(&case, "id", 0);
         match str_of(&case, "k").as_str() {
             "godepth" => godepth(&mut out, id, &case),
+            // candidate forced mate in <= 3: certificate first, then the search to depth 2N-1
+            "matego" => {
+                let fen = str_of(&case, "fen");
+                let found = guarded(|| {
+                    let mut b = Bitboard::from_fen_string(&fen).expect("case FEN");
+                    for n in 1..=3u32 {
+                        if let Some(c) = mate_att(&mut b, n) { return Some((n, c)); }
+                    }
+                    None
+                });
+                match found {
+                    Ok(Some((n, cert))) => {
+                        let mut c2 = case.clone();
+                        let o = c2.as_object_mut().expect("case object");
+                        o.insert("n".to_string(), json!(n));
+                        o.insert("cert".to_string(), cert);
+                        o.insert("d".to_string(), json!(2 * n - 1));
+                        o.insert("mode".to_string(), json!("mate"));
+                        o.insert("noeval".to_string(), json!(true));
+                        godepth(&mut out, id, &c2);
+                    }
+                    Ok(None) => out.emit(&json!({"c": id, "ev": "skipped", "fen": fen, "d": 0, "why": "the candidate search finds no forced mate in 3"})),
+                    Err(m) => out.emit(&json!({"c": id, "ev": "panic", "during": "candidate mate search", "msg": m, "p": "C01"})),
+                }
+            }
             "eval" => {
                 let fen = str_of(&case, "fen");
                 let r = guarded(|| {
